@@ -157,7 +157,7 @@ def gen_scn(rng, idx=0):
     if 'e' in (tables or '-Cem') and (full_ecs or rng.random() < 0.4):
         # "binary run" family: no rule names NUL or an 8-bit byte, one rule takes the 7-bit rest and one takes runs
         # of everything else - with equivalence classes NUL then shares a class (the last one) with 0x80-0xff
-        sc = scenario.gen_scenario(rng, want={'flavors': ['nr', 'nr', 'r', 'r', 'c99', 'cxx'], 'tables': tables},
+        sc = scenario.gen_scenario(rng, want={'flavors': ['nr', 'nr', 'r', 'r', 'c99', 'c99', 'cxx', 'cxx'], 'tables': tables},
                                    forbid=('vtrail', 'nul', 'high', 'neg', 'wide', 'sdot', 'catchall'))
         sc.buf_size = None
         sc.rules.append(scenario.Rule(pat=rx.cls(frozenset(range(1, 128))), conds=[]))
@@ -185,7 +185,7 @@ def gen_scn(rng, idx=0):
                 sc.rules.append(r)
         sc.alphabet = list(sc.alphabet) + [0, 0x80, 0xfe]
         return sc
-    sc = scenario.gen_scenario(rng, want={'feats': tuple(feats), 'flavors': ['nr', 'nr', 'r', 'r', 'c99', 'cxx'], 'tables': tables}, forbid=('vtrail',))
+    sc = scenario.gen_scenario(rng, want={'feats': tuple(feats), 'flavors': ['nr', 'nr', 'r', 'r', 'c99', 'c99', 'cxx', 'cxx'], 'tables': tables}, forbid=('vtrail',))
     sc.buf_size = None
     # matches that END on the special byte, with a longer rule that continues after it: the scanner must
     # remember the position after the NUL as its back-up point
